@@ -69,7 +69,7 @@ pub fn check_string(sh: &Shared, c: &SCase) -> Check {
     }
     // one input in 32 again in other calling contexts (a destructor during unwinding, a
     // thread-local destructor at thread exit): same outcome, still no panic
-    if crate::slots::key_of(s) % 32 == 0 {
+    if !is_fuzz_mode() && crate::slots::key_of(s) % 32 == 0 {
         let here = (guard(|| l.parse(s).is_ok()).ok(), guard(|| l.parse_term(s).is_ok()).ok());
         for ctx in crate::contexts::ALL {
             sh.evals(2);
